@@ -57,6 +57,7 @@ func runC05(t testing.TB, c C05Case) (key, what string, classes map[string]int) 
 	cfg.Tmpl = ""
 	var firstPin string
 	sites := 0
+	custom := false
 	startAndCheck := func(withTmpl bool) (*Srv, string, string, string) {
 		cf := cfg
 		if withTmpl {
@@ -131,7 +132,7 @@ func runC05(t testing.TB, c C05Case) (key, what string, classes map[string]int) 
 				return "HARNESS", where + ": " + err.Error(), classes
 			}
 			ms := anyPin.FindAllSubmatch(res.Body, -1)
-			if len(ms) < 2 {
+			if len(ms) < 2 && !custom || len(ms) < 1 {
 				return "script-without-pins", fmt.Sprintf("%s: script carries %d pins: %q", where, len(ms), clip(string(res.Body), 200)), classes
 			}
 			for _, m := range ms {
@@ -166,7 +167,8 @@ func runC05(t testing.TB, c C05Case) (key, what string, classes map[string]int) 
 		case "restart", "custom-script":
 			s.Stop()
 			var npin string
-			s, npin, k, w = startAndCheck(st.Kind == "custom-script")
+			custom = st.Kind == "custom-script"
+			s, npin, k, w = startAndCheck(custom)
 			if k != "" {
 				return k, w, classes
 			}
